@@ -16,6 +16,7 @@ import (
 	"github.com/gardenbed/emerge/internal/ebnf/parser/spec"
 	rast "github.com/gardenbed/emerge/internal/regex/parser/ast"
 	"github.com/gardenbed/emerge/internal/regex/parser/nfa"
+	"github.com/gardenbed/emerge/verif/defs"
 	"github.com/gardenbed/emerge/verif/ev"
 	"github.com/gardenbed/emerge/verif/ref/cliref"
 	"github.com/gardenbed/emerge/verif/ref/regexref"
@@ -197,7 +198,7 @@ func main() {
 		case "spec":
 			checkSpecText(r, in.Text)
 		case "cli":
-			cli(r, [][]string{in.Args})
+			cli(r, [][]string{in.Args}, map[int]string{0: in.Text})
 		}
 		r.Finish()
 	}
@@ -437,7 +438,20 @@ func main() {
 		gen4(4)
 		cliArgs = all
 	}
-	cli(r, lines)
+	// generation of every specification of the shared definition sets (terminals owning no state, literals that need
+	// escaping, multi-line tokens, comment delimiters ...), plain and with -debug: no trace, status 0 and the announcement
+	specFor := map[int]string{}
+	for si, ds := range defs.Sets() {
+		for _, extra := range [][]string{{}, {"-debug"}, {"-verbose"}} {
+			if !mine() {
+				continue
+			}
+			specFor[len(lines)] = defs.SpecText("demo", ds)
+			lines = append(lines, append(append([]string{"-out=OUT"}, extra...), "valid.grammar"))
+			_ = si
+		}
+	}
+	cli(r, lines, specFor)
 	r.Assume("a panic is caught by recover in the calling goroutine; a call that does not return within 120 s is reported as a hang by a watchdog; the CLI is the binary built from /repo/cmd/emerge at the start of the run")
 	r.Finish()
 }
@@ -445,7 +459,8 @@ func main() {
 var cliArgs = []string{"-out=OUT", "-out", "-name=pkg", "-name=", "-debug", "-verbose", "-help", "-h", "-version", "-bogus", "--", "valid.grammar", "invalid.grammar", "missing.grammar", "adir", "valid.grammar/x", "-out=valid.grammar", "-name=if",
 	"-", "-x.grammar", "--name", "-debug=maybe", "-help=false", "-=x", "---", "-name=int"}
 
-func cli(r *ev.Run, lines [][]string) {
+// cli runs the real binary on every command line; specFor (may be nil) gives the text of valid.grammar for line i.
+func cli(r *ev.Run, lines [][]string, specFor map[int]string) {
 	if len(lines) == 0 {
 		return
 	}
@@ -468,7 +483,11 @@ func cli(r *ev.Run, lines [][]string) {
 		dir := filepath.Join(tmp, fmt.Sprintf("run%d", i))
 		_ = os.MkdirAll(filepath.Join(dir, "OUT"), 0o755)
 		_ = os.MkdirAll(filepath.Join(dir, "adir"), 0o755)
-		_ = os.WriteFile(filepath.Join(dir, "valid.grammar"), []byte("grammar demo ;\nNUM = /[0-9]+/ ;\nstart = NUM \"+\" NUM ;\n"), 0o644)
+		validText := "grammar demo ;\nNUM = /[0-9]+/ ;\nstart = NUM \"+\" NUM ;\n"
+		if t, ok := specFor[i]; ok {
+			validText = t
+		}
+		_ = os.WriteFile(filepath.Join(dir, "valid.grammar"), []byte(validText), 0o644)
 		_ = os.WriteFile(filepath.Join(dir, "invalid.grammar"), []byte("grammar demo ;\nstart = = ;\n"), 0o644)
 		// what the documented command line asks for (reference model of the flag syntax)
 		model := cliref.Parse(args)
@@ -497,6 +516,9 @@ func cli(r *ev.Run, lines [][]string) {
 				expect = "either"
 			}
 		}
+		if _, ok := specFor[i]; ok && expect == "ok-generate" {
+			expect = "either" // the text is one of the shared definition sets: generation, or a clean error
+		}
 		cmd := exec.Command(bin, args...)
 		cmd.Dir = dir
 		cmd.Env = append(os.Environ(), "NO_COLOR=1", "TERM=dumb")
@@ -522,7 +544,7 @@ func cli(r *ev.Run, lines [][]string) {
 		_ = os.RemoveAll(dir)
 		r.Add("command_lines", 1)
 		r.Distinct("c:" + strings.Join(args, " "))
-		in := map[string]any{"Kind": "cli", "Args": args}
+		in := map[string]any{"Kind": "cli", "Args": args, "Text": validText}
 		all := so.String() + se.String()
 		switch {
 		case code == -2:
